@@ -24,7 +24,7 @@ import re
 import subprocess
 
 GFORTRAN = "/usr/bin/gfortran"
-FLAGS = ["-fopenmp", "-fopenacc", "-ffree-line-length-none",
+FLAGS = ["-fopenmp", "-fopenacc", "-ffree-line-length-none", "-fmax-errors=0",
          "-fno-diagnostics-show-caret", "-fdiagnostics-color=never"]
 
 _LOC = re.compile(r"^(.*?):(\d+):(\d+):\s*(.*)$")
@@ -235,6 +235,12 @@ def compile_batch(texts, workdir, tag, sig_of=None):
             for idx, rec in bad.items():
                 results[idx] = rec
             alive = [i for i in alive if i not in bad]
+            if mode == "A":
+                # The front end diagnoses every program unit of the file
+                # (-fmax-errors=0), so pass A needs no repetition; anything it
+                # could have missed would stop pass B, which IS repeated until
+                # the remaining file is clean.
+                break
     for idx in alive:
         results[idx] = {"errors": [], "unsupported": []}
     return results, runs
